@@ -118,8 +118,10 @@ Fails(name, ok) == IF ok THEN {} ELSE {name}
 \* C02 for the vector-tile operations: what the box stream delivers for the coordinate is what the lookup returns -- present or
 \* absent alike, failing or not alike, and (where the harness logged a hash of the delivered bytes) the identical bytes
 HashOf(o) == IF "h" \in DOMAIN o THEN o.h ELSE -1
-StreamEqLookup(r) == r.stream.exists = r.lookup.exists /\ r.stream.ok = r.lookup.ok /\ r.stream.tile = r.lookup.tile
-                     /\ HashOf(r.stream) = HashOf(r.lookup)
+\* (a lookup that returns an ERROR delivers no tile, and a stream can only leave such a tile out: "has a tile" = delivered and decodable)
+HasTile(o) == o.exists = 1 /\ o.ok = 1
+StreamEqLookup(r) == HasTile(r.stream) = HasTile(r.lookup)
+                     /\ (HasTile(r.lookup) => r.stream.tile = r.lookup.tile /\ HashOf(r.stream) = HashOf(r.lookup))
 
 (* judging observed operations.  `out' = semantic view of the delivered tile as decoded by the INDEPENDENT decoder *)
 MergeFails(r) ==
